@@ -599,7 +599,7 @@ namespace c17
                     t.printAsMatrix(std::cerr);
                     auto sv = world::denseCheck(*c.w, t.getStates());
                     fprintf(stderr, "   recheck=%d nseg=%u own=%u dense=%.2f lvs=%g factor=%u\n", (int)c.w->si->checkMotion(l.first, l.second),
-                            c.w->ss->validSegmentCount(l.first, l.second), world::ownSegmentCount(c.w->ss.get(), l.first, l.second), sv.worstRunSteps,
+                            c.w->ss->validSegmentCount(l.first, l.second), world::ownSegmentCount(c.w->ss.get(), l.first, l.second, c.w->requestedFraction), sv.worstRunSteps,
                             c.w->ss->getLongestValidSegmentLength(), c.w->ss->getValidSegmentCountFactor());
                 }
             }
